@@ -252,6 +252,11 @@ func (s Server) LeafSelectionQuery(ctx context.Context, req *admin.LeafSelection
 			newChanges[path] = updateValue
 		}
 
+		// a configuration that has no committed values yet is handed out with a nil map
+		if config.Values == nil {
+			config.Values = make(map[string]*configapi.PathValue)
+		}
+
 		for _, path := range deletes {
 			if _, ok := config.Values[path]; ok {
 				config.Values[path].Deleted = true
